@@ -42,6 +42,10 @@ ROOTS = [
     ("update_block_type", "StrideEval", "src/enc/stride_eval.rs", ["self"], ["self"]),
     ("push", "CommandQueue", "src/enc/brotli_bit_stream.rs", ["self"], ["self"]),
 ]
+# Not yet a root: BrotliEncoderStateStruct::encode_data (entry = out = `self`).  Its skeleton is extracted (hasher_setup,
+# get_brotli_storage, command growth, CreateBackwardReferences, WriteMetaBlockInternal), but it allocates into fields
+# under data guards (`if self.command_buf_.slice().is_empty()`, `if let UnionHasher::Uninit = ..`), which the
+# path-insensitive checker reads as "overwrites a place that may hold a block"; it needs an assume-empty node.
 
 
 # Functions that are opaque on the pinned baseline (allocation-wise self-contained: they free what they
@@ -55,14 +59,22 @@ EXPECTED_OPAQUE = {
 }
 
 
+# Layering assumption used ONLY when a method is known by name alone (receiver type unknown): the encoder core never
+# calls into the I/O adapters and the threading layer, so e.g. `x.unwrap()` / `x.into_inner()` inside the core is not
+# `OwnedRetriever::unwrap` / `CompressorWriter::into_inner`.  (Calls whose receiver type is known are resolved exactly.)
+OUTER_FILES = {"src/enc/threading.rs", "src/enc/multithreading.rs", "src/enc/singlethreading.rs", "src/enc/worker_pool.rs",
+               "src/enc/writer.rs", "src/enc/reader.rs", "src/enc/mod.rs", "src/enc/fixed_queue.rs"}
+
+
 class Unavailable(Exception):
     pass
 
 
 # ------------------------------------------------------------------------------------------------ index
 class Fn:
-    def __init__(self, name, impl, path, sig, body):
+    def __init__(self, name, impl, path, sig, body, trait=None):
         self.name, self.impl, self.path, self.sig, self.body = name, impl, path, sig, body
+        self.trait = trait
         self.params = None
         self.key = (path, impl, name)
 
@@ -119,7 +131,7 @@ def _type_name(ttoks):
     return out
 
 
-def index_items(toks, path, fns, structs, i=0, end=None, impl=None):
+def index_items(toks, path, fns, structs, i=0, end=None, impl=None, trait=None):
     end = len(toks) if end is None else end
     while i < end:
         t = toks[i][1]
@@ -152,11 +164,13 @@ def index_items(toks, path, fns, structs, i=0, end=None, impl=None):
                     ad -= 2
                 elif x[1] == "for" and ad == 0:
                     fpos = k
+            tr = None
             if fpos is not None:
+                tr = _type_name(hdr[:fpos])
                 hdr = hdr[fpos + 1:]
             ty = _type_name(hdr)
             k = _match(toks, j, "{", "}")
-            index_items(toks, path, fns, structs, j + 1, k, ty)
+            index_items(toks, path, fns, structs, j + 1, k, ty, tr)
             i = k + 1
             continue
         if t == "fn" and i + 1 < end and toks[i + 1][0] == "id":
@@ -173,7 +187,7 @@ def index_items(toks, path, fns, structs, i=0, end=None, impl=None):
                 i = j + 1
                 continue
             k = _match(toks, j, "{", "}")
-            fns.append(Fn(name, impl, path, toks[i:j], toks[j:k + 1]))
+            fns.append(Fn(name, impl, path, toks[i:j], toks[j:k + 1], trait))
             i = k + 1
             continue
         if t == "mod" and i + 2 < end and toks[i + 2][1] == "{":
@@ -480,6 +494,9 @@ class Body:
         k = i
         while k < end:
             v = self.val(k)
+            if v == "::" and k + 1 < end and self.val(k + 1) == "<":
+                k = _skip_angles(self.t, k + 1)      # a turbofish `::<A, B>` is not a separator context
+                continue
             if v in ("(", "[", "{"):
                 d += 1
             elif v in (")", "]", "}"):
@@ -1146,6 +1163,12 @@ class Body:
         if cands is None:
             # unknown function: allocation-neutral by assumption (not defined under src/enc); a fresh block
             # handed to it cannot be followed
+            if name[:1].isupper() and any(self.owning(v) for v in argvals):
+                # enum variant / tuple struct constructor (`UnionHasher::H2(h)`, `Some(x)`): the wrapper owns what
+                # its arguments owned; one argument keeps its paths, several become the fields 0, 1, …
+                if len(argvals) == 1:
+                    return seq(*argnodes), argvals[0]
+                return seq(*argnodes), ("struct", [(str(n), v) for n, v in enumerate(argvals) if v is not None])
             for v in argvals:
                 if self.owning(v):
                     if name[:1].isupper() or name in ("Some", "Ok", "Err", "from", "into", "plain", "ctx"):
@@ -1360,7 +1383,9 @@ class Gen:
                     return exact
                 if ty in self.structs:
                     return None     # a type of ours without such a method: a std / trait method
-            return ms
+            if body.fn.path not in OUTER_FILES:
+                ms = [c for c in ms if c.path not in OUTER_FILES]
+            return ms or None
         # `Type::f(..)` / `Self::f(..)` / `module::f(..)` / `f(..)`: path segments outside `<…>`
         segs = []
         d = 0
@@ -1388,7 +1413,15 @@ class Gen:
             same = [c for c in free if c.path == body.fn.path]
             return same or free
         if qual and qual[0] == "<":
-            return [c for c in cands if not (c.params and c.params[0][0] == "self")] or None
+            # `<X as Trait<..>>::f(..)`: the implementations of that trait
+            st = [c for c in cands if not (c.params and c.params[0][0] == "self")]
+            if "as" in qual:
+                k = qual.index("as")
+                tr = next((w for w in qual[k + 1:] if w[:1].isalpha()), None)
+                byt = [c for c in st if c.trait == tr]
+                if byt:
+                    st = byt
+            return st or None
         return None
 
     # key-level over-approximation of "may reach an allocation primitive" (no parsing: token mentions of
@@ -1421,6 +1454,8 @@ class Gen:
                 cands = self.by_name[v]
                 if prev == ".":
                     sel = [c for c in cands if c.params and c.params[0][0] == "self"]
+                    if f.path not in OUTER_FILES:
+                        sel = [c for c in sel if c.path not in OUTER_FILES]
                 elif prev == "::":
                     # qualifier: identifier before `::`, skipping a turbofish
                     q = k - 2
